@@ -33,6 +33,11 @@ const TARGETS = {
   ok:   { src: 'o[kk]', read: (out, e) => e.bound.o.p, init: (e) => e.bound.o.p },
   arr0: { src: 'arr[0]', read: (out, e) => e.bound.arr[0], init: (e) => e.bound.arr[0] },
 };
+// semantically transparent wrappers around the target (.tsx): same storage cell, same binding
+for (const [k, base, src] of [['mvNN', 'mv', 'mv!'], ['mvParen', 'mv', '(mv)'], ['mvAs', 'mv', 'mv as any'], ['mvParenAs', 'mv', '(mv as any)'], ['opNN', 'op', 'o.p!'], ['opAs', 'op', 'o.p as string'], ['opParen', 'op', '(o.p)'], ['okNN', 'ok', 'o[kk]!'], ['arr0Sat', 'arr0', 'arr[0] satisfies any'], ['arr0ParenNN', 'arr0', '(arr[0])!']]) {
+  TARGETS[k] = Object.assign({}, TARGETS[base], { src, cell: base === 'ok' ? 'op' : base, base, ts: true });
+}
+const cellOf = (t) => TARGETS[t].cell || (t === 'ok' ? 'op' : t);
 const CELLS = ['mv', 'op', 'arr0']; // distinct storage cells (o.p and o[kk] are the same one)
 const ARGS = { none: {}, ns: { name: () => 'arg' }, arrStr: { arr: "'arg'", name: () => 'arg' }, arrDyn: { arr: 'dyn', name: (e) => e.bound.dyn, computed: true } };
 const MODFORMS = { none: { mods: [] }, suffix1: { suffix: ['trim'], mods: ['trim'] }, suffix2: { suffix: ['a', 'b'], mods: ['a', 'b'] }, arr: { arr: ['trim'], mods: ['trim'] }, arr2: { arr: ['lazy', 'a-b'], mods: ['lazy', 'a-b'] } };
@@ -67,7 +72,7 @@ function render(c) {
   return PRELUDE + `__out.mk = () => (${h.tpl(list)});\n__out.base = () => (${h.tpl(singles)});\n`;
 }
 
-function requests(c) { return [{ src: render(c), want: ['eval'], opts: JSON.stringify({ mergeProps: c.mp, optimize: c.opt }) }]; }
+function requests(c) { return [{ src: render(c), ts: (c.sp === 'M' ? [c.m] : c.ms).some((m) => TARGETS[m.target].ts), want: ['eval'], opts: JSON.stringify({ mergeProps: c.mp, optimize: c.opt }) }]; }
 
 function mkEnv() { const env = E.makeEnv(); return env; }
 
@@ -97,7 +102,7 @@ function expectedSingle(c, env) {
   const props = Object.assign({}, h.props(env));
   const listenerKey = 'onUpdate:' + name;
   props[listenerKey] = function generated() {};
-  const exp = { props, dirs: null, listenerKey, target: m.target === 'ok' ? 'op' : m.target };
+  const exp = { props, dirs: null, listenerKey, target: cellOf(m.target) };
   if (h.component) {
     props[name] = value;
     if (mf.mods.length) props[name === 'modelValue' ? 'modelModifiers' : name + 'Modifiers'] = mods;
@@ -171,6 +176,7 @@ function spaces(tier) {
     { target: 'mv', arg: 'none', mod: 'none' }, { target: 'mv', arg: 'none', mod: 'arr' },
     { target: 'op', arg: 'arrStr', mod: 'none' }, { target: 'op', arg: 'arrStr', mod: 'arr' },
     { target: 'arr0', arg: 'arrDyn', mod: 'none' }, { target: 'arr0', arg: 'arrDyn', mod: 'arr2' },
+    { target: 'mvParen', arg: 'none', mod: 'none' }, { target: 'opAs', arg: 'arrStr', mod: 'arr' }, { target: 'arr0ParenNN', arg: 'arrDyn', mod: 'none' },
   ];
   const argOf = (i) => ENTRY[i].arg;
   return [
@@ -194,11 +200,13 @@ function spaces(tier) {
 function* shrink(c) {
   if (c.sp === 'L') {
     for (let i = 0; i < c.ms.length; i++) if (c.ms.length > 1) yield Object.assign({}, c, { ms: c.ms.slice(0, i).concat(c.ms.slice(i + 1)) });
+    for (let i = 0; i < c.ms.length; i++) if (TARGETS[c.ms[i].target].base) yield Object.assign({}, c, { ms: c.ms.map((m, j) => (j === i ? Object.assign({}, m, { target: TARGETS[m.target].base }) : m)) });
     if (c.host !== 'Comp') yield Object.assign({}, c, { host: 'Comp' });
   } else {
     const m = c.m;
     if (m.mod !== 'none') yield Object.assign({}, c, { m: Object.assign({}, m, { mod: 'none' }) });
     if (m.arg !== 'none') yield Object.assign({}, c, { m: Object.assign({}, m, { arg: 'none' }) });
+    if (TARGETS[m.target].base) yield Object.assign({}, c, { m: Object.assign({}, m, { target: TARGETS[m.target].base }) });
     if (m.target !== 'mv') yield Object.assign({}, c, { m: Object.assign({}, m, { target: 'mv' }) });
     if (c.host !== 'input' && !HOSTS[c.host].component) yield Object.assign({}, c, { host: 'input' });
     if (HOSTS[c.host].component && c.host !== 'Comp') yield Object.assign({}, c, { host: 'Comp' });
